@@ -118,7 +118,10 @@ def patterns_quick():
 
 
 ESCAPED_SPELLINGS = [(r'[a-\z-9]', '[a-z-9]'), (r'[\a-\c-\e]', '[a-c-e]'), (r'[!a-\z-9]', '[!a-z-9]'), (r'x[0-\9-a]', 'x[0-9-a]'), (r'[a-\z]', '[a-z]'), (r'[\a-z]', '[a-z]'),
-                     (r'[a-\c-]', '[a-c-]'), (r'[a-\cx-\z-]', '[a-cx-z-]'), (r'[a-\z-9]*', '[a-z-9]*'), (r'[\!a]', '[a!]'), (r'[a\]b]', '[]ab]')]
+                     (r'[a-\c-]', '[a-c-]'), (r'[a-\cx-\z-]', '[a-cx-z-]'), (r'[a-\z-9]*', '[a-z-9]*'), (r'[\!a]', '[a!]'), (r'[a\]b]', '[]ab]'),
+                     # `[:name:]` with a name that is not one of the fourteen POSIX classes is ordinary bracket text: the bracket ends at the first `]`
+                     ('[[:foo:]]', '[[:fo]]'), ('[![:foo:]]', '[![:fo]]'), ('[a[:foo:]b]', '[a[:fo]b]'), ('[[:ALPHA:]]', '[[:ALPH]]'), ('[[:alphas:]]', '[[:alphs]]'),
+                     ('x[[:fo:]]*', 'x[[:fo]]*'), ('@([[:foo:]]|q)', '@([[:fo]]|q)')]
 
 
 def escaped_spelling_lemmas(chk):
